@@ -10,6 +10,7 @@ package main
 import (
 	"fmt"
 	"os"
+	"runtime/debug"
 	"runtime/pprof"
 	"sort"
 	"time"
@@ -35,6 +36,9 @@ func binom(n, k int) int64 {
 }
 
 func main() {
+	// millions of short-lived allocations on a tiny live heap: let the heap grow before collecting
+	debug.SetGCPercent(2000)
+	debug.SetMemoryLimit(3 << 30)
 	run := evid.New("C04", "exploration")
 	if pf := os.Getenv("C04_PROF"); pf != "" {
 		f, _ := os.Create(pf)
